@@ -333,6 +333,8 @@ def _payloads(ctx, repo, folder, m):
         # fragment check: the length arithmetic uses only + * //const %const over fields
         for f in (init, gl):
             for n in walk_no_nested(f.node):
+                if isinstance(n, ast.BinOp) and isinstance(n.op, ast.Mod) and isinstance(n.left, (ast.Constant, ast.JoinedStr)) and isinstance(getattr(n.left, "value", None), str):
+                    continue  # string formatting, not arithmetic
                 if isinstance(n, ast.BinOp) and isinstance(n.op, (ast.FloorDiv, ast.Mod)):
                     c = folder.fold(n.right, m)
                     ctx.require(isinstance(c, int) and c in (1, 2), "%s: %s leaves the affine-with-parity fragment" % (f.qualname, ast.unparse(n)))
@@ -348,11 +350,13 @@ def _payloads(ctx, repo, folder, m):
             if isinstance(r, Raised):
                 ctx.check("payload-size", inst, False, init, "%s raises" % cname, "%s raises %s on a complete payload (%s)" % (cname, r, inst), node=r.node)
             else:
-                consumed, length, raw = r
+                consumed, length, raw, _fields = r
                 ok = consumed == need and length == need
                 ctx.check("payload-size", inst, ok, gl if length != need else init, "%s size agreement" % cname,
                           "%s: constructor reads %s bytes, get_length() is %s, the Dalvik payload is %d bytes" % (inst, consumed, show(length), need),
                           detail="consumed == get_length() == %d" % need)
+                if isinstance(raw, (Sym,)) or (not isinstance(raw, BytesV) and raw is not None and not isinstance(raw, (bytes, bytearray, int, str, list, tuple))):
+                    raise AnalysisError("%s.get_raw(): result %s is outside the interpreter's fragment" % (cname, show(raw)[:160]))
                 rok = isinstance(raw, BytesV) and len(raw.bytes) == need
                 why = ""
                 if rok:
@@ -370,6 +374,9 @@ def _payloads(ctx, repo, folder, m):
                     why = "get_raw() is %s, expected %d bytes" % (show(raw), need)
                 ctx.check("payload-raw", inst, rok, gr, "%s re-encoding" % cname,
                           "%s: get_raw() does not reproduce the payload bytes: %s" % (inst, why), detail="get_raw() == the %d input bytes" % need)
+            # field meaning: keys/targets/first_key are signed 32-bit values at their payload offsets
+            if not isinstance(r, Raised):
+                _payload_fields(ctx, cls, cname, inst, p, r[3], init)
             # truncated buffers: must raise
             for avail in sorted({need - 1, need - 2, max(need - 4, 0), 8, 6} - {need}):
                 if avail < 0 or avail >= need:
@@ -387,6 +394,53 @@ def _payloads(ctx, repo, folder, m):
                           witness={"payload": inst, "available": avail, "needed": need}, detail="raises on %d of %d bytes" % (avail, need))
     ctx.floor("payload_cases", 30)
     ctx.floor("truncation_cases", 30)
+
+
+def _s32(off):
+    return Bits.source([("s", off + k, i) for k in range(4) for i in range(8)], True)
+
+
+def _payload_fields(ctx, cls, cname, inst, p, fields, init):
+    """Dalvik: packed-switch-payload first_key int, targets int[size]; sparse-switch-payload keys int[size], targets int[size]
+    (all signed 32-bit, branch targets relative to the switch opcode)"""
+    n = p["size"]
+    if cname == "PackedSwitch":
+        exp = {"get_targets": [_s32(8 + 4 * i) for i in range(n)]}
+        fk = fields.get("first_key")
+        ctx.check("payload-fields", inst + " first_key", isinstance(fk, Bits) and fk == _s32(4), init, "PackedSwitch.first_key",
+                  "%s: first_key is %s; the payload defines a signed 32-bit value at bytes 4..7" % (inst, show(fk)[:160]),
+                  detail="first_key = signed bytes 4..7")
+        gk = fields.get("get_keys")
+        if isinstance(gk, list) and n:
+            # keys are first_key + i
+            from ..absint import Lin
+            ok = len(gk) == n
+            for i, k in enumerate(gk if ok else []):
+                l = Lin.of(k) if not isinstance(k, Lin) else k
+                want = Lin({_s32(4): 1}, i).simplify()
+                want = Lin.of(want) if not isinstance(want, Lin) else want
+                if l is None or l != want:
+                    ok = False
+            ctx.check("payload-fields", inst + " keys", ok, cls.lookup("get_keys"), "PackedSwitch.get_keys",
+                      "%s: get_keys() is %s; expected first_key + 0..size-1" % (inst, show(gk)[:200]), detail="keys = first_key + i")
+    elif cname == "SparseSwitch":
+        exp = {"get_keys": [_s32(4 + 4 * i) for i in range(n)], "get_targets": [_s32(4 + 4 * n + 4 * i) for i in range(n)]}
+    else:
+        return
+    for g, want in exp.items():
+        got = fields.get(g)
+        if isinstance(got, Sym):
+            raise AnalysisError("%s.%s(): result %s is outside the interpreter's fragment" % (cname, g, show(got)[:120]))
+        ok = isinstance(got, (list, tuple)) and len(got) == len(want) and all(isinstance(a, Bits) and a == b for a, b in zip(got, want))
+        bad = ""
+        if not ok and isinstance(got, (list, tuple)) and len(got) == len(want):
+            for i, (a, b) in enumerate(zip(got, want)):
+                if not (isinstance(a, Bits) and a == b):
+                    bad = "entry %d is %s, the payload defines %s" % (i, show(a)[:120], b.describe())
+                    break
+        ctx.check("payload-fields", "%s %s" % (inst, g), ok, cls.lookup(g) or init, "%s.%s" % (cname, g),
+                  "%s: %s() does not return the signed 32-bit table entries of the payload: %s" % (inst, g, bad or show(got)[:200]),
+                  detail="%s = signed 32-bit entries at their payload offsets" % g)
 
 
 def _header_bytes(cname, ident, p):
@@ -421,7 +475,16 @@ def _run_payload(repo, folder, cls, init, gl, gr, hdr, avail):
         if isinstance(length, Bits) and length.is_const():
             length = length.value()
         raw = it.call_function(gr, [], recv=o)
-        return consumed, length, raw
+        fields = {}
+        for g in ("get_keys", "get_targets", "get_values", "get_data"):
+            fn = cls.lookup(g)
+            if fn is not None:
+                try:
+                    fields[g] = it.call_function(fn, [], recv=o)
+                except Raised as ex:
+                    fields[g] = ex
+        fields["first_key"] = o.attrs.get("first_key")
+        return consumed, length, raw, fields
 
     res = explore(r)
     if len(res) != 1:
